@@ -17,7 +17,7 @@ def main():
     props = sys.argv[4:] or ALL
     ro = os.path.join(wt, 'refactor_out')
     patch, notes = os.path.join(ro, 'patch_%s.diff' % k), os.path.join(ro, 'notes_%s.md' % k)
-    sh(['git', 'checkout', '--', '.'], wt)
+    sh(['git', 'checkout', '--', '.'], wt); sh(['git', 'clean', '-fdq', '-e', 'refactor_out', '-e', 'seeded_out'], wt)
     c, out = sh(['git', 'apply', patch], wt)
     if c != 0:
         print('patch does not apply', out[-300:]); return 2
@@ -35,7 +35,7 @@ def main():
             res['checks'][p] = {'exit': c, 'first_finding': first[0][:400] if first else (inc[0][:400] if inc else ''), 'secs': round(time.time() - t0)}
             print(p, c, res['checks'][p]['first_finding'][:200]); sys.stdout.flush()
     finally:
-        sh(['git', 'checkout', '--', '.'], wt)
+        sh(['git', 'checkout', '--', '.'], wt); sh(['git', 'clean', '-fdq', '-e', 'refactor_out', '-e', 'seeded_out'], wt)
     d = os.path.join(VERIF, 'refactors', '%s_%s' % (tag, k))
     os.makedirs(d, exist_ok=True)
     shutil.copy(patch, os.path.join(d, 'patch.diff'))
